@@ -4792,13 +4792,18 @@ impl PeerConnectionInner {
         // "Answer cannot remove m= section ... from already-established BUNDLE
         // group".  For offers we only group when there is more than one section
         // to stay compatible with plain-RTP/SIP peers.
-        let will_bundle = self.config.sdp_compatibility
-            != crate::config::SdpCompatibilityMode::LegacySip
-            && match sdp_type {
-                SdpType::Offer => ordered_transceivers.len() > 1,
-                SdpType::Answer => remote_offered_bundle,
-                _ => false,
-            };
+        // An offer that carries a BUNDLE group does not come from a legacy endpoint, and all of
+        // its sections share one transport address: the group is echoed in every compatibility
+        // mode (LegacySip only keeps us from PROPOSING a group, and "omits a=mid unless BUNDLE is
+        // active"). Dropping it left the two ends with different transport layouts.
+        let will_bundle = match sdp_type {
+            SdpType::Offer => {
+                self.config.sdp_compatibility != crate::config::SdpCompatibilityMode::LegacySip
+                    && ordered_transceivers.len() > 1
+            }
+            SdpType::Answer => remote_offered_bundle,
+            _ => false,
+        };
         let local_offers_rtcp_mux = self.config.rtcp_mux_policy
             == crate::config::RtcpMuxPolicy::Require
             && self.config.sdp_compatibility != crate::config::SdpCompatibilityMode::LegacySip;
@@ -5166,7 +5171,9 @@ impl PeerConnectionInner {
 
             // In LegacySip mode, omit a=mid entirely: legacy SIP endpoints confuse
             // a=mid without a matching a=group:BUNDLE.
-            if self.config.sdp_compatibility == crate::config::SdpCompatibilityMode::LegacySip {
+            if self.config.sdp_compatibility == crate::config::SdpCompatibilityMode::LegacySip
+                && !will_bundle
+            {
                 for section in &mut desc.media_sections {
                     section.mid = String::new();
                 }
